@@ -400,8 +400,12 @@ def rule_entry(ctx):
     ctx.check(R, "build_basic_blocks/lifts-the-body-at-depth-0", okv, "", site(LF, fn))
     bb = find_fn(BB, "new", "BasicBlock")
     if bb is not None:
-        t = render(bb["body"]).replace(" ", "")
-        ctx.check(R, "BasicBlock::new/no-edges", "predecessors:IndexSet::new()" in t and "successors:IndexSet::new()" in t and "index" in t and "loop_depth" in t, t[:200], site(BB, bb))
+        from astlib import struct_literal_fields
+
+        lits = struct_literal_fields(bb, "BasicBlock")
+        pvn = sgrep.params(bb)
+        okn = len(lits) == 1 and len(pvn) == 3 and lits[0].get("predecessors") in ("IndexSet::new()", "IndexSet::default()", "Default::default()") and lits[0].get("successors") in ("IndexSet::new()", "IndexSet::default()", "Default::default()") and lits[0].get("index") == pvn[1] and lits[0].get("loop_depth") == pvn[2] and lits[0].get("meta") == pvn[0]
+        ctx.check(R, "BasicBlock::new/no-edges", okn, str(lits)[:300], site(BB, bb))
 
 
 def run(ctx):
